@@ -67,7 +67,9 @@ def write_replay(pid, ob, outcome):
 def finding_matches(f, pid, ob, outcome):
     if f.get('property') != pid or f.get('status', 'open') != 'open':
         return False
-    if f.get('obligation') != ob['name'].split('#')[0] and f.get('obligation') != ob['name']:
+    names = [f.get('obligation')] + list(f.get('also', []))
+    base = re.sub(r'/\d+$', '', ob['name'])
+    if not any(n in (ob['name'], base, ob['name'].split('#')[0]) for n in names):
         return False
     sig = f.get('witness_signature')
     if sig is None:
@@ -130,6 +132,10 @@ def main(argv=None):
         if o['result'] == 'error':
             errors.append({'key': o['name'], 'error': 'solver error: %s' % o.get('reason', '')[:300]})
     proved = [o for o in obs if o['result'] == 'proved']
+    if os.environ.get('VERIF_DUMP_FAILED'):
+        with open(os.environ['VERIF_DUMP_FAILED'], 'w') as fh:
+            for o in failed:
+                fh.write('%s %s %s\n' % (o['name'], o['result'], o.get('path', '')))
 
     known = load_json(os.path.join(VERIF, 'known_findings.json'), {'findings': []})['findings']
     baseline = load_json(os.path.join(VERIF, 'baseline_obligations.json'), {}).get(pid, [])
@@ -202,7 +208,8 @@ def main(argv=None):
 
     def hints(ob):
         base = re.sub(r'/\d+$', '', ob['name'])
-        mine = [f for f in known_pid if f.get('obligation') in (base, ob['name'])]
+        mine = [f for f in known_pid if any(n in (base, ob['name'])
+                                           for n in [f.get('obligation')] + list(f.get('also', [])))]
         return {'want_signature': mine[0].get('witness_signature') if mine else None,
                 'skip_signatures': [f.get('witness_signature') for f in known
                                     if f not in mine and f.get('status', 'open') == 'open'
